@@ -35,7 +35,7 @@ func Spec_calcCoords(index, size int) (row, col int) {
 func (m *Matrix) Spec_Matches(groupsNumber int, groupEvaluator func(row, col int) int, predicate func(value float64) bool) []int {
 	groups := make([]int, groupsNumber)
 	for i, v := range m.Data {
-		groupIndex := groupEvaluator(calcCoords(i, m.Size))
+		groupIndex := groupEvaluator(Spec_calcCoords(i, m.Size))
 		if predicate(v) {
 			groups[groupIndex] += 1
 		}
@@ -44,13 +44,13 @@ func (m *Matrix) Spec_Matches(groupsNumber int, groupEvaluator func(row, col int
 }
 
 func (m *Matrix) Spec_MatchesInRow(predicate func(value float64) bool) []int {
-	return m.Matches(m.Size, func(row, col int) int {
+	return m.Spec_Matches(m.Size, func(row, col int) int {
 		return row
 	}, predicate)
 }
 
 func (m *Matrix) Spec_MatchesInColumn(predicate func(value float64) bool) []int {
-	return m.Matches(m.Size, func(row, col int) int {
+	return m.Spec_Matches(m.Size, func(row, col int) int {
 		return col
 	}, predicate)
 }
@@ -58,7 +58,7 @@ func (m *Matrix) Spec_MatchesInColumn(predicate func(value float64) bool) []int 
 func (m *Matrix) Spec_Filter(filter func(row, col int, v float64) bool) *Matrix {
 	newVals := make([]float64, m.Size*m.Size)
 	for i, v := range m.Data {
-		row, col := calcCoords(i, m.Size)
+		row, col := Spec_calcCoords(i, m.Size)
 		if filter(row, col, v) {
 			newVals[i] = v
 		} else {
@@ -82,13 +82,13 @@ func (m *Matrix) Spec_FindBest(isBetter func(old, new float64) bool) float64 {
 }
 
 func (m *Matrix) Spec_Max() float64 {
-	return m.FindBest(func(old, new float64) bool {
+	return m.Spec_FindBest(func(old, new float64) bool {
 		return new > old
 	})
 }
 
 func (m *Matrix) Spec_Min() float64 {
-	return m.FindBest(func(old, new float64) bool {
+	return m.Spec_FindBest(func(old, new float64) bool {
 		return new < old
 	})
 }
@@ -112,7 +112,7 @@ func (m *Matrix) Spec_Without(indices *[]int) *Matrix {
 	dataIndex := 0
 	for i, v := range data {
 		rowIndex := i % m.Size
-		if !utils.ContainsInts(&sorted, &rowIndex) {
+		if !utils.Spec_ContainsInts(&sorted, &rowIndex) {
 			resultData[dataIndex] = v
 			dataIndex++
 		}
@@ -134,7 +134,7 @@ func (m *Matrix) Spec_Slice(indices *[]int) *Matrix {
 	dataIndex := 0
 	for i, v := range data {
 		rowIndex := i % m.Size
-		if utils.ContainsInts(indices, &rowIndex) {
+		if utils.Spec_ContainsInts(indices, &rowIndex) {
 			resultData[dataIndex] = v
 			dataIndex++
 		}
